@@ -115,4 +115,4 @@ def run(ck):
     return vlib.finish_with_broken(ck, trusted=vlib.TRUSTED_COMMON + ["translator/gen_dispatch.py (switch cases and README lists)"])
 
 def replay(ck, path):
-    print(open(path).read()); return 0
+    return vlib.replay_generic(ck, path)
